@@ -17,6 +17,8 @@ func main() {
 	switch *prop {
 	case "C01":
 		rep = suiteParse("C01", *tier, *seed, *model, map[string]bool{"accept": true})
+	case "C03":
+		rep = suiteChunk(*tier, *seed, *model)
 	case "C02":
 		rep = suiteParse("C02", *tier, *seed, *model, map[string]bool{"value": true})
 	case "C06":
